@@ -47,15 +47,19 @@ class DictCodec(object):
     # ------------------------------------------------------------ values -> doc
     def enc(self, t, v, top=False):
         if validity.is_multi(t):
-            if v is None:
+            from vf.ref import special
+            if v is None or v is special.Absent or v is special.Nil:
                 return None
             return [self.enc1(_single(_strip(t)), x) for x in v]
         return self.enc1(t, v)
 
     def enc1(self, t, v):
+        from vf.ref import special
         t = _strip(t)
-        if v is None:
+        if v is None or v is special.Nil:
             return None
+        if isinstance(v, special.Raw):
+            return v.text
         k = t[0]
         if k == 'e':
             return v
@@ -69,6 +73,12 @@ class DictCodec(object):
                 doc = {}
                 for fn, ft in fields:
                     fv = v.f.get(fn)
+                    from vf.ref import special
+                    if fv is special.Absent:
+                        continue
+                    if fv is special.Nil:
+                        doc[self.key(fn)] = None
+                        continue
                     if fv is None:
                         mn, _ = validity.occurs(ft)
                         if mn > 0:
@@ -216,6 +226,12 @@ class DictCodec(object):
         else:
             body = {}
             for a, v in zip(margs, args):
+                from vf.ref import special
+                if v is special.Absent:
+                    continue
+                if v is special.Nil:
+                    body[self.key(a[0])] = None
+                    continue
                 if v is None:
                     mn, _ = validity.occurs(a[1])
                     if mn > 0:
